@@ -51,6 +51,13 @@ CHECKS['C10'] = ('model_checking', 'Every invariant state with one source WBS an
 CHECKS['C20'] = ('other', 'The real text renderers are executed on strings of unbounded symbolic length (names, resources, custom values, resource names); every width comparison inside TextTable is a solver decision; on the resulting rope the solver decides that all lines have equal width and every column equal cell width (LIA over lengths, unsat = aligned for all lengths), plus line count, depth-first order, 3-spaces-per-level indentation, link/parent cells with the (external) mark, and one usage-table line per day.', '6 C20',
                  'Bounded: <=3 tasks quick / 4 thorough + one outside task; field selections, themes and entry points from a menu; string lengths unbounded. Stubs: builtin len shadowed in pjplan.utils/pjplan.task; str * SymInt yields a pad token. Trusted: CPython str methods move the opaque tokens unchanged (native replay validates), z3, symx.')
 
+CHECKS['C13'] = ('other', 'write_csv -> real file -> read_csv executed with symbolic ids (any integer, solver picks 0/negatives/equalities), symbolic estimates/spent/milestone, text fields None / empty / opaque symbolic / adversarial concrete; equalities of the statement, byte fixpoint of a second cycle, and a permuted-columns/BOM/CRLF variant of the file are asserted on every path.', '6 C13',
+                 'Bounded: <=3 tasks quick / 4 thorough; one rich task per WBS; date menu around the %y pivots. Stubs: int/float shadowed in pjplan.io.csv_io so that decimal tokens map back to symbolic numbers; csv/io C code executes concretely on token strings and on the adversarial menu only. Trusted: CPython csv/io, z3, symx.')
+CHECKS['C18'] = ('other', 'Task-list queries with every filter suffix: attribute population absent/None/value per task, symbolic int values and right-hand sides, bounded symbolic texts with regex filters unrolled as NFA over symbolic characters; membership of every task is compared with the reference predicate by the solver; bulk assignment and remove_all checked on the same paths.', '6 C18',
+                 'Bounded: <=3 tasks quick / 4 thorough, texts <=2/3 chars over a..c, pattern menu. Stub: re in pjplan.task -> NFA model (validated against re.search on all short strings in every run). Trusted: CPython, z3, symx.')
+CHECKS['C19'] = ('other', 'The three renderers run on forked shapes/links/sections/styles with symbolic milestone flags and estimate/spent and opaque or adversarial names; the produced documents are parsed textually: one task line/entry per task with dates and milestone flag under its section, one edge/link per dependency, Start edges, JSON well-formed, progress within 0..1 decided by the solver, notebook form = escaped document.', '6 C19',
+                 'Bounded: <=3 tasks; names from an adversarial menu or opaque symbolic; dates concrete. Stub: json shim with default= hook in pjplan.viz.dhtmlx.gantt. Solver content is thin (milestone branches, progress arithmetic). Browser-side parsing is outside the claim. Trusted: CPython json/html/string.Template, z3, symx.')
+
 NOT_YET = {
 }
 
